@@ -13,6 +13,7 @@ import (
 	"path/filepath"
 	"runtime"
 	"runtime/debug"
+	"runtime/metrics"
 	"runtime/pprof"
 	"sort"
 	"strconv"
@@ -174,12 +175,30 @@ var (
 
 // startWatchdog ends the process with exit 2 when a single simulated run (including the replays
 // done while minimising) takes more than 90 s of wall time.
+// heapBytes is the live-plus-garbage size of the Go heap (the collector is off during a run and runs
+// between runs: every 64 runs, or earlier when runs with large payloads have piled garbage up).
+func heapBytes() uint64 {
+	sample := []metrics.Sample{{Name: "/memory/classes/heap/objects:bytes"}}
+	metrics.Read(sample)
+	if sample[0].Value.Kind() == metrics.KindUint64 {
+		return sample[0].Value.Uint64()
+	}
+	return 0
+}
+
 func startWatchdog(prop string) {
 	go func() {
 		for {
 			time.Sleep(time.Second)
-			if st := curStart.Load(); st != 0 && time.Since(time.Unix(0, st)) > 90*time.Second {
-				fmt.Fprintf(os.Stderr, "verif: watchdog: run index %d of %s has been running for more than 90 s of wall time; goroutines:\n", curRun.Load(), prop)
+			st := curStart.Load()
+			if st == 0 {
+				continue
+			}
+			// a run is given up after 90 s of this process's own CPU time since it started, or after
+			// 10 minutes of wall time (a machine under memory or CPU pressure can stall a healthy run
+			// for a long while; that is not a hang)
+			if cpu := processCPU() - curCPU.Load(); cpu > int64(90*time.Second) || time.Since(time.Unix(0, st)) > 10*time.Minute {
+				fmt.Fprintf(os.Stderr, "verif: watchdog: run index %d of %s has used %v of CPU time in %v of wall time; goroutines:\n", curRun.Load(), prop, time.Duration(cpu).Round(time.Second), time.Since(time.Unix(0, st)).Round(time.Second))
 				pprof.Lookup("goroutine").WriteTo(os.Stderr, 1)
 				os.Exit(2)
 			}
@@ -187,7 +206,19 @@ func startWatchdog(prop string) {
 	}()
 }
 
+// processCPU is the CPU time (user + system) this process has consumed, in nanoseconds.
+func processCPU() int64 {
+	var ru syscall.Rusage
+	if syscall.Getrusage(syscall.RUSAGE_SELF, &ru) != nil {
+		return 0
+	}
+	return ru.Utime.Nano() + ru.Stime.Nano()
+}
+
+var curCPU atomic.Int64
+
 func execRun(p *props.Property, tape *simrt.Tape, o props.Opts) (out props.Outcome) {
+	curCPU.Store(processCPU())
 	curStart.Store(time.Now().UnixNano())
 	defer curStart.Store(0)
 	defer func() {
@@ -263,7 +294,7 @@ func cmdWorker(args []string) int {
 		curRun.Store(int64(i))
 		out := execRun(p, tape, opts)
 		sum.Runs++
-		if sum.Runs%64 == 0 {
+		if sum.Runs%64 == 0 || (sum.Runs%4 == 0 && heapBytes() > 512<<20) {
 			runtime.GC()
 		}
 		if len(sum.Seeds) < 8 {
@@ -564,7 +595,7 @@ func cmdReplay(args []string) int {
 			}
 			out = execRun(p, tape, props.Opts{Tier: rf.Tier, KeepLog: i == rf.RunIndex})
 			n++
-			if n%64 == 0 {
+			if n%64 == 0 || (n%4 == 0 && heapBytes() > 512<<20) {
 				runtime.GC()
 			}
 		}
